@@ -10,3 +10,4 @@ import InToto.Properties.C04
 #print axioms InToto.C04.dsse_verifies_pae
 #print axioms InToto.C04.pae_example
 #print axioms InToto.C04.verify_never_panics
+#print axioms InToto.C04.unrepresentable_content_is_never_signed
